@@ -505,6 +505,100 @@ def install_skel(tr, M):
             body = ast.FunctionDef(name='_', args=None, body=loops[0].body, decorator_list=[])
             return 'Definition flow_job22 : fl :=\n  (FSeq %s FRet).' % flow_of(body, loop_table='_snd_buffer'), M.span_hash(s, f)
         tr.item('SkelGen', 'flow_job22', mkjob)
+    # ---------------------------------------------------------------- "state before send" orderings (C08/C04/C13)
+    def order_of(body, is_send, is_commit):
+        """skeleton in which handing a frame to the bus sets the flag (FMark) and a commit of protocol state checks it
+        (FAlt FRet FSkip): the checker then rejects any path on which state is committed AFTER the frame it belongs to has
+        been handed to the bus"""
+        def fseq(items):
+            items = [i for i in items if i != 'FSkip']
+            if not items:
+                return 'FSkip'
+            if len(items) == 1:
+                return items[0]
+            return '(FSeq %s %s)' % (items[0], fseq(items[1:]))
+
+        def has(node):
+            return any(is_send(x) or is_commit(x) for x in ast.walk(node))
+
+        def stmts(body):
+            out = []
+            for st in body:
+                if isinstance(st, ast.If):
+                    if has(st.test):
+                        raise Unsupported('send/commit inside a condition')
+                    out.append('(FAlt %s %s)' % (fseq(stmts(st.body)), fseq(stmts(st.orelse))))
+                elif isinstance(st, (ast.While, ast.For)):
+                    if has(st):
+                        # zero or one more iteration after any prefix: the body twice covers "commit in a later iteration after a send"
+                        b = fseq(stmts(st.body))
+                        out.append('(FAlt FSkip (FSeq %s (FAlt FSkip %s)))' % (b, b))
+                    else:
+                        out.append('FSkip')
+                elif isinstance(st, (ast.Try, ast.With)):
+                    if has(st):
+                        raise Unsupported('send/commit inside try/with')
+                    out.append('FSkip')
+                elif isinstance(st, (ast.Return, ast.Raise, ast.Break, ast.Continue)):
+                    out.append('FEnd')
+                else:
+                    toks = []
+                    # evaluation order inside one simple statement: a call on the right-hand side happens before the store
+                    for x in ast.walk(st):
+                        if is_send(x):
+                            toks.append('FMark')
+                    if is_commit(st):
+                        toks.append('(FAlt FRet FSkip)')
+                    out += toks or ['FSkip']
+            return out
+        return fseq(stmts(body))
+
+    def selfcall_named(x, names):
+        return (isinstance(x, ast.Call) and isinstance(x.func, ast.Attribute) and isinstance(x.func.value, ast.Name)
+                and x.func.value.id == 'self' and x.func.attr in names)
+
+    def order_items():
+        # (i) send_pgn: the send session is stored before the RTS is handed to the bus
+        for cls, mod, suffix in [('J1939_21', 'j1939_21', '21'), ('J1939_22', 'j1939_22', '22')]:
+            def mk(cls=cls, mod=mod, suffix=suffix):
+                t, s = tr.trees[mod], tr.src[mod]
+                f = find(t, cls, 'send_pgn')
+                if not any(selfcall_named(x, ('__send_tp_rts',)) for x in ast.walk(f)):
+                    raise Unsupported('no __send_tp_rts in send_pgn')
+                sk = order_of(f.body, lambda x: selfcall_named(x, ('__send_tp_rts',)),
+                              lambda st: isinstance(st, ast.Assign) and any(isinstance(tg, ast.Subscript) and shared(tg.value) == '_snd_buffer' for tg in st.targets))
+                return 'Definition order_send%s : fl :=\n  %s.' % (suffix, sk), M.span_hash(s, f)
+            tr.item('SkelGen', 'order_send' + suffix, mk)
+
+            # (ii) the burst loop of the job pass: the session record is updated before the data frame is handed to the bus
+            def mkb(cls=cls, mod=mod, suffix=suffix):
+                t, s = tr.trees[mod], tr.src[mod]
+                f = find(t, cls, 'async_job_thread')
+                loops = [w for w in ast.walk(f) if isinstance(w, ast.While) and any(selfcall_named(x, ('__send_tp_dt',)) for x in ast.walk(w))]
+                if len(loops) != 1:
+                    raise Unsupported('expected exactly one while loop sending data frames in async_job_thread, found %d' % len(loops))
+                def commit(st):
+                    tgs = st.targets if isinstance(st, ast.Assign) else ([st.target] if isinstance(st, ast.AugAssign) else [])
+                    return any(isinstance(tg, ast.Subscript) and isinstance(tg.value, ast.Name) and tg.value.id == 'buf' for tg in tgs)
+                sk = order_of(loops[0].body, lambda x: selfcall_named(x, ('__send_tp_dt', '__send_tp_eom_status')), commit)
+                return 'Definition order_burst%s : fl :=\n  %s.' % (suffix, sk), M.span_hash(s, f)
+            tr.item('SkelGen', 'order_burst' + suffix, mkb)
+
+        # (iii) the controller application: claim state and address are committed before the claim frame is handed to the bus
+        def mkca():
+            t, s = tr.trees['controller_application'], tr.src['controller_application']
+            parts = []
+            for fn in ('_process_claim_async', '_process_addressclaim'):
+                f = find(t, 'ControllerApplication', fn)
+                def commit(st):
+                    tgs = st.targets if isinstance(st, ast.Assign) else ([st.target] if isinstance(st, ast.AugAssign) else [])
+                    return any(isinstance(tg, ast.Attribute) and isinstance(tg.value, ast.Name) and tg.value.id == 'self'
+                               and tg.attr in ('_device_address_state', '_device_address') for tg in tgs)
+                parts.append(order_of(f.body, lambda x: selfcall_named(x, ('_send_address_claimed',)), commit))
+            f0 = find(t, 'ControllerApplication', '_process_addressclaim')
+            return 'Definition order_ca : fl :=\n  (FAlt %s %s).' % (parts[0], parts[1]), M.span_hash(s, f0)
+        tr.item('SkelGen', 'order_ca', mkca)
+    tr.order_items = order_items
     tr.flow_items = flow_items
     tr.skel_items = skel_items
 
